@@ -413,8 +413,22 @@ class AnsiString:
                         del settings_point.rem[i]
 
                 if idx == end:
-                    if end != len(self._s):
-                        settings_point.add += removed_settings
+                    if end != len(self._s) and removed_settings:
+                        # Restart the removed settings here. Settings which continue across this index and sit
+                        # above a restarted one must be restarted as well to keep their precedence.
+                        continuing = [
+                            s for s in current_settings
+                            if __class__._find_setting_reference(s, settings_point.add) < 0
+                        ]
+                        first = min(
+                            [i for i, s in enumerate(continuing)
+                             if __class__._find_setting_reference(s, removed_settings) >= 0],
+                            default=len(continuing)
+                        )
+                        for s in continuing[first:]:
+                            if __class__._find_setting_reference(s, removed_settings) < 0:
+                                settings_point.rem.append(s)
+                        settings_point.add[:0] = continuing[first:]
                 else:
                     for i in reversed(range(len(settings_point.add))):
                         if ansi_settings is None or settings_point.add[i] in ansi_settings:
